@@ -48,6 +48,11 @@ pub struct Case {
     /// (LD-BREAK, 0x056B) and resumes whenever it is hit
     #[serde(default)]
     pub break_at_trap: bool,
+    /// the host rewinds the tape right before the request with this index (taken modulo the number
+    /// of requests; 0 = before the first one): whatever the earlier requests left unread of their
+    /// blocks, the request meets the first block of the tape again
+    #[serde(default)]
+    pub rewind_before: Option<u8>,
 }
 
 pub const STUB: u16 = 0xBE00;
@@ -277,15 +282,25 @@ pub fn check(c: &Case, rec: &mut Rec) -> Result<(), String> {
         }
         return Ok(());
     }
-    for (k, rq) in c.requests.iter().enumerate() {
+    let rewind_at = c.rewind_before.map(|j| j as usize % c.requests.len());
+    let mut base = 0usize;
+    for (rq_index, rq) in c.requests.iter().enumerate() {
+        if rewind_at == Some(rq_index) {
+            rig.e.rewind_tape().map_err(|x| format!("rewind_tape: {:?}", x))?;
+            base = rq_index;
+            rec.class(if rq_index == 0 { "host-rewind:before-the-first-request" } else { "host-rewind:between-requests" });
+        }
+        // index of the block this request meets
+        let k = rq_index - base;
         let block = blocks.get(k);
         let r = resolve(rq, block);
         prefill(&mut rig, rq, &r, block);
         setup_call(&mut rig, &r);
         rig.e.verif_set_frame_clocks(1000);
         let ctx = format!(
-            "request {} (A={:#04x} {} IX={:#06x} DE={:#06x}) against block {}",
-            k,
+            "request {}{} (A={:#04x} {} IX={:#06x} DE={:#06x}) against block {}",
+            rq_index,
+            if rewind_at.map_or(false, |j| j <= rq_index) { format!(" (tape rewound by the host before request {})", base) } else { String::new() },
             r.a,
             if r.load { "LOAD" } else { "VERIFY" },
             r.ix,
@@ -339,7 +354,7 @@ pub fn check(c: &Case, rec: &mut Rec) -> Result<(), String> {
                 rec.class("end-of-tape:waits");
             }
             compare_memory(&rig, &ctx)?;
-            rec.nontrivial(fnv(format!("{:?}{}", c, k).as_bytes()));
+            rec.nontrivial(fnv(format!("{:?}{}", c, rq_index).as_bytes()));
             // the CPU is now inside the ROM loop; later requests restart from the stub
             continue;
         }
@@ -415,7 +430,7 @@ pub fn check(c: &Case, rec: &mut Rec) -> Result<(), String> {
         }
         let plain = want.outcome == Outcome::Ok && r.load && r.de as usize + 2 == block.len() && r.a == block[0];
         if !plain || block.len() > 128 {
-            rec.nontrivial(fnv(format!("{:?}{}", c, k).as_bytes()));
+            rec.nontrivial(fnv(format!("{:?}{}", c, rq_index).as_bytes()));
         }
     }
     rec.class(if c.machine == Machine::K48 { "48k" } else { "128k" });
@@ -464,7 +479,16 @@ pub fn case_strategy() -> impl Strategy<Value = Case> {
         any::<u64>(),
         prop_oneof![3 => Just(0u8), 1 => Just(1), 1 => Just(2), 1 => Just(3), 1 => Just(4), 1 => Just(5)],
     )
-        .prop_map(|(machine, blocks, truncate, requests, ram_seed, prelude)| Case { machine, blocks, truncate, requests, ram_seed, prelude, break_at_trap: ram_seed % 5 == 2 })
+        .prop_map(|(machine, blocks, truncate, requests, ram_seed, prelude)| Case {
+            machine,
+            blocks,
+            truncate,
+            requests,
+            ram_seed,
+            prelude,
+            break_at_trap: ram_seed % 5 == 2,
+            rewind_before: if (ram_seed >> 16) % 3 == 0 { Some((ram_seed >> 24) as u8) } else { None },
+        })
 }
 
 #[derive(Clone, Debug, Serialize, Deserialize)]
@@ -619,6 +643,7 @@ pub fn probe_end_of_tape_success() -> Result<bool, String> {
         ram_seed: 1,
         prelude: 0,
         break_at_trap: false,
+        rewind_before: None,
     };
     let mut rec = Rec::default();
     match check(&c, &mut rec) {
@@ -659,7 +684,7 @@ pub fn replay(run: &mut Run, phase: &str, case: &serde_json::Value) -> Result<()
 }
 
 pub const LEVEL: &str = "exploration";
-pub const RULE: &str = "case = machine (128K with the 48K BASIC ROM paged) x TAP image of 0..6 blocks (flag 0x00/0xFF/any, payload lengths biased to 0,1,2,17 and the 127/128/129 and 255/256/257/258 buffer boundaries, up to 2000, right or wrong checksum, optionally a truncated tail) x sequence of 1..8 calls of the ROM routine at 0x0556 from a RAM stub (A = block flag or generated, LOAD or VERIFY, IX anywhere incl. ROM and the 0xFFFF wrap, DE around the block length, 0, 1, >= 0xFF00, uniform; VERIFY memory pre-filled to match or mismatch at a chosen index), continuing past the end of the tape; preludes: nothing / an SZX snapshot loaded first / latch locked then an ignored paging write / PLAY and STOP pressed before the requests / fast loading off at construction and switched on at run time / on at construction and switched off at run time (then nothing may be loaded from the stopped deck); in a fifth of the cases the host's debugger has a breakpoint on the trap address 0x056B and resumes on every hit. Oracle: LD-BYTES semantic model written from the ROM listing; compared at the return address: carry, IX, DE and all RAM outside system variables and the stack page. Past the end: within 150 frames the routine must not return with carry set and IX, DE, AF' must be intact. block-loaded-over-the-stack: a block whose first bytes replace the address LD-BYTES has pushed for its own exit must leave through the loaded address with SP, carry, IX, DE and memory as the ROM leaves them. play-pressed-after-the-end: a one-block tape is fast-loaded, a second request is left waiting at the end, the host presses PLAY: the waiting request must receive block 1 in real time with the result LD-BYTES gives for it. non-trivial = request that is not 'matching flag, LOAD, DE = length' or a block longer than 128 bytes; distinct = hash of (case, request index)";
+pub const RULE: &str = "case = machine (128K with the 48K BASIC ROM paged) x TAP image of 0..6 blocks (flag 0x00/0xFF/any, payload lengths biased to 0,1,2,17 and the 127/128/129 and 255/256/257/258 buffer boundaries, up to 2000, right or wrong checksum, optionally a truncated tail) x sequence of 1..8 calls of the ROM routine at 0x0556 from a RAM stub (A = block flag or generated, LOAD or VERIFY, IX anywhere incl. ROM and the 0xFFFF wrap, DE around the block length, 0, 1, >= 0xFF00, uniform; VERIFY memory pre-filled to match or mismatch at a chosen index), continuing past the end of the tape; preludes: nothing / an SZX snapshot loaded first / latch locked then an ignored paging write / PLAY and STOP pressed before the requests / fast loading off at construction and switched on at run time / on at construction and switched off at run time (then nothing may be loaded from the stopped deck); in a fifth of the cases the host's debugger has a breakpoint on the trap address 0x056B and resumes on every hit; in a third of the cases the host rewinds the tape right before one of the requests (whatever the earlier ones left unread of their blocks), and that request meets block 0 again. Oracle: LD-BYTES semantic model written from the ROM listing; compared at the return address: carry, IX, DE and all RAM outside system variables and the stack page. Past the end: within 150 frames the routine must not return with carry set and IX, DE, AF' must be intact. block-loaded-over-the-stack: a block whose first bytes replace the address LD-BYTES has pushed for its own exit must leave through the loaded address with SP, carry, IX, DE and memory as the ROM leaves them. play-pressed-after-the-end: a one-block tape is fast-loaded, a second request is left waiting at the end, the host presses PLAY: the waiting request must receive block 1 in real time with the result LD-BYTES gives for it. non-trivial = request that is not 'matching flag, LOAD, DE = length' or a block longer than 128 bytes; distinct = hash of (case, request index)";
 pub const ASSUMPTIONS: &[&str] = &[
     "LD-BYTES model from the ROM disassembly (flag compare skipped when D = 0xFF, store/compare order, parity over all bytes, DE = 0 shortcut, short block = time-out failure, long block = parity failure); cross-checked against the real ROM code running in real time by C11's system-level phase",
     "A, H, L, the zero flag are not compared; system variables 0x5C00-0x5CBF and the stack/stub page 0xBD00-0xBFFF are excluded from the memory comparison",
